@@ -316,7 +316,10 @@ impl Segment {
 
         if let Some(indices) = &self.indexes {
             let relative_start_offset = (start_offset - self.start_offset) as u32;
-            let relative_end_offset = (end_offset - self.start_offset) as u32;
+            // The end offset of a poll may lie far beyond the segment (count goes up to u32::MAX): saturate instead of
+            // truncating, a wrapped value selects an index entry before the wanted one and cuts the result short.
+            let relative_end_offset =
+                std::cmp::min(end_offset - self.start_offset, u32::MAX as u64) as u32;
             let index_range = match self.load_highest_lower_bound_index(
                 indices,
                 relative_start_offset,
